@@ -270,15 +270,38 @@ func runScenario(sc *scenario) (res *scenResult) {
 		} else {
 			d.ev("better tip (%s) connected inside the chain's template call", sc.P.TipKind)
 		}
+	case "sign-refused":
+		st0.forbid, st0.forbidFrom = "keeper-refused-to-sign-the-header", started
+		until := started.Add(8 * time.Second)
+		if st0.exp.Exists {
+			if t := st0.exp.TS.Add(4 * time.Second); t.After(until) {
+				until = t
+			}
+		}
+		d.waitSub(0, 0, until)
+		st0.gaveUpAt = time.Now()
 	case "tip-before":
 		if !st0.exp.Exists {
 			st0.drop = "harness:no-eligible-slot-in-event-scenario"
 			break
 		}
 		sleepUntil(tE.Add(-margin))
-		_, at := d.chain.announce(d.tipNode(sc.P.TipKind), true)
+		var at time.Time
+		if sc.P.Idx%3 == 2 {
+			// the better chain is not announced to the waiter: a side block that is not better is, and when the monitor
+			// wants to wait again the best chain has grown past the parent (the chain refuses to wait for an old height)
+			side := d.tipNode([]string{"lower-capsum", "later-timestamp", "lower-quality", "equal"}[sc.P.Idx/3%4])
+			grown := d.tipNode("capsum")
+			grown.Height++
+			var ok bool
+			ok, at = d.chain.announceSideThenGrow(side, grown)
+			d.ev("side block that is not better announced through BlockWaiter (waiter registered: %v) while the best chain grew to height %d, %d ms before the eligible slot becomes tryable", ok, grown.Height, tE.Sub(at).Milliseconds())
+			res.Counters["side_block_then_grown_chain"]++
+		} else {
+			_, at = d.chain.announce(d.tipNode(sc.P.TipKind), true)
+			d.ev("better tip (%s) announced through BlockWaiter, %d ms before the eligible slot becomes tryable", sc.P.TipKind, tE.Sub(at).Milliseconds())
+		}
 		d.tipAt = at
-		d.ev("better tip (%s) announced through BlockWaiter, %d ms before the eligible slot becomes tryable", sc.P.TipKind, tE.Sub(at).Milliseconds())
 		st0.forbid, st0.forbidFrom = "better-tip-before-eligible-slot-tryable", at
 		if tE.Sub(at) < minMargin {
 			st0.drop = "thin-margin:tip-vs-slot-tryable"
